@@ -239,6 +239,8 @@ def e2e(ctx):
             e.close()
     # "the remaining backups are still attempted" across configured backups: the configuration names another upload-enabled
     # backup first, whose synchronisation fails as a whole (its cloud root does not exist / the listing request is refused)
+    if hung >= 2:
+        return stats        # (uploads do not end: the scenarios below would each wait for the watchdog too)
     for idx, (prov, how) in enumerate([('dropbox', 'missing-cloud-root'), ('yandex', 'listing-refused')] if ctx.tier == 'quick' else
                                       [(p_, h_) for p_ in uc.PROVIDERS for h_ in ('missing-cloud-root', 'listing-refused')]):
         e = uc.E2E(ctx, 380 + idx, prov, 'correct horse', nbackups=1)
@@ -272,6 +274,22 @@ def e2e(ctx):
                               % (how, want, prov, errs[:3]), {'case': case})
         finally:
             e.close()
+    # an asynchronous Yandex Disk operation that never leaves "in-progress": vsb gives it a minute, reports it and ends
+    e = uc.E2E(ctx, 395, 'yandex', 'correct horse', nbackups=1, stage_options=['--op-polls', '100000000'])
+    try:
+        o = e.upload(timeout=115)
+        case = {'provider': 'yandex', 'mode': 'the operation behind the upload stays in progress for ever'}
+        stats['cases'] += 1
+        stats['stalled_operation_cases'] = 1
+        finals = {rel for rel in o['cloud'] if not os.path.basename(rel).startswith('.')}
+        if o['run'].rc == -999:
+            ctx.violation('property', 'vsb upload did not terminate within 115 s while a Yandex Disk operation stayed in progress (it polls for one minute)', {'case': case})
+        elif not o['run'].errors():
+            ctx.violation('property', 'a Yandex Disk operation never completed and nothing is reported at error level', {'case': case})
+        if o['gpg_left']:
+            ctx.violation('property', 'a gpg process was left behind after vsb upload ended [stalled operation]', {'case': case})
+    finally:
+        e.close()
     return stats
 
 
